@@ -1,5 +1,6 @@
 import Batteries.Tactic.Alias
 import GenlmModel.Proofs.Fst
+import GenlmModel.Proofs.LimFst
 /-! # C10 — transducer composition counts every matching path pair exactly once
 About the mirror models of `fst.py` (`FST.compose` / `compose'` = the two association branches of
 `__matmul__` through `_augment_epsilon_transitions` and `epsilon_filter_fst`), every commutative semiring. -/
@@ -25,4 +26,26 @@ alias project_in_spec := Genlm.project_in_PN
 alias from_string_spec := Genlm.fromStringT_spec
 alias from_pairs_spec := Genlm.fromPairs_spec
 alias eval_epsfree := Genlm.evalN_epsfree
+/-! ## at the limit (ℝ≥0∞): `TL T x y` = sum over ALL accepting paths reading x and writing y — no hypothesis on the machines -/
+alias transducer_weight_is_series := Genlm.TL_eq_tsum
+/-- (f ∘ g)(x, z) = Σ_y f(x, y) · g(y, z) with y ranging over ALL strings: output-ε in f, input-ε in g, ε:ε arcs, cycles,
+several initial/final states; every matching path pair exactly once -/
+alias compose_is_relational_composition_limit := Genlm.compose_TL
+/-- the internal association order chosen by `__matmul__` is irrelevant -/
+alias compose_association_irrelevant_limit := Genlm.compose_assoc_irrelevant
+alias compose_other_order_limit := Genlm.compose'_TL
+alias compose_associative_limit := Genlm.compose_TL_assoc
+alias transpose_limit := Genlm.transpose_TL
+alias project_output_limit := Genlm.project_out_PL
+alias project_input_limit := Genlm.project_in_PL
+alias diag_limit := Genlm.diag_TL
+alias from_string_limit := Genlm.fromString_TL
+alias from_pairs_limit := Genlm.fromPairs_TL_count
+/-- `T(x, y)` (`FST.__call__`: compose with both strings, total weight) is the path-sum weight, for machines WITH ε arcs/cycles -/
+alias call_is_path_sum_limit := Genlm.evalL_eq_TL
+alias call_any_association := Genlm.evalL_branches
+/-- cross-sections `T(x, None)`, `T(None, y)` -/
+alias cross_section_x := Genlm.crossX_PL
+alias cross_section_y := Genlm.crossY_PL
+alias total_weight_is_start_backward := Genlm.FST.totalL_eq_totalWeight
 end Genlm.Props.C10
